@@ -332,9 +332,9 @@ def _dest_size(f, u, d, aliases):
     return None, None
 
 
-def j3(prog, rep):
+def j3(prog, rep, units=None):
     n = 0
-    for up in UNITS:
+    for up in (units or UNITS):
         u = prog.unit(up)
         for f in u.funcs:
             if f.file != up:
@@ -407,8 +407,17 @@ def j3(prog, rep):
                         if fx is None:
                             fx = Facts(f).solve()
                         k = fx.best_bound(c, norm(la), ("c", size))
-                        rep.check(k is not None and k <= 0, "J3-bounded", inst, c.where,
-                                  "%s bytes into %s of %d bytes: no dominating test bounds the length (known: %s)" % (show(norm(la)), desc, size,
+                        # a copy of strlen(s) bytes of s leaves the terminator behind: a character array that is to hold the string
+                        # needs one byte more than the copy fills
+                        ln = norm(la)
+                        is_strlen = ln[0] == "call" and ln[1] == "strlen"
+                        if ln[0] == "v":
+                            defs = [x for x in f.all_elems() if x.is_assign and x.op == "=" and norm(x.kid(0)) == ln]
+                            is_strlen = bool(defs) and all(norm(x.kid(1))[0] == "call" and norm(x.kid(1))[1] == "strlen" and norm(x.kid(1))[2] == norm(c.arg(1)) for x in defs)
+                        need = -1 if (is_strlen and c.callee in ("memcpy", "memmove") and "[" in ((d.strip().ty if d.strip() is not None else "") or "")) else 0
+                        rep.check(k is not None and k <= need, "J3-bounded", inst, c.where,
+                                  "%s bytes into %s of %d bytes: %s (known: %s)" % (show(norm(la)), desc, size,
+                                  "the copy is the string without its terminator, so the array must keep one byte for it (length <= size - 1)" if need else "no dominating test bounds the length",
                                   "length <= %d%+d" % (size, k) if k is not None else "nothing"), function=f.name, construct="copy:" + c.callee)
                 elif kind == "str":
                     if fx is None:
@@ -427,7 +436,7 @@ def j3(prog, rep):
                     a, b = c.arg(1), c.arg(2)
                     ok = a is not None and b is not None and a.val is not None and b.val is not None and a.val * b.val <= size
                     rep.check(ok, "J3-bounded", inst, c.where, "fread of %s*%s bytes into %d" % (a.val if a else "?", b.val if b else "?", size), function=f.name, construct="copy:fread")
-    if n < 25:
+    if units is None and n < 25:
         rep.defer_broken("J3: only %d bounded-copy sites found (>= 25 confirmed)" % n)
     # the serialised-address decoder: reads from the input are covered by the length tests
     f = prog.func("util/sock_util.c", "sock_addr_deserialize")
@@ -737,6 +746,10 @@ def run(tier):
         j5(prog, rep)
         j7_strseq(prog, rep)
         j6_eof(prog, rep)
+        # "read only the bytes they were given": nothing released is looked at again (a diagnostic that prints an address string
+        # after the string was freed reads memory that is no longer the parser's) -- every path, not only allocation failures
+        from . import c14
+        c14.double_free_rule(prog, rep, only_files=tuple(UNITS), alloc_only=False)
         # humansize_parse is a character-at-a-time state machine: its reads are decided on the machine extracted from its CFG
         # (sa/finite.py; the exploration is C16's S3-grammar)
         from . import c16
@@ -745,7 +758,7 @@ def run(tier):
             rep.defer_broken("J4-wrap: no index with an unsigned subtraction found")
     # the command-line parser's reads of argv[optind] and its pack cursor (rules shared with C18)
     from . import c18
-    c18.rules(c18.Only(rep, {"Q1-bounds", "Q4-step"}))
+    c18.rules(c18.Only(rep, {"Q1-bounds", "Q4-step", "Q8-reset"}))     # Q8: a reset forgets the pack cursor (it points into the previous vector)
     n = len(configs)
     rep.require_min("J1-cursor", 80 * n)
     rep.require_min("J2-validated", 3 * n)
